@@ -30,6 +30,18 @@ CLAIMED = {
  "C19": ("exploration", "4 C19", "seeded search over pause points: the peer goes silent forever after a drawn prefix; virtual time makes 'a read that can be satisfied must not wait' an exact check (t_out == t_in) and 'send returns when the blank line arrives' an exact equality."),
 }
 
+TECH = {
+ "C11": "deterministic simulation used as harness only: seeded sampling of proxy configurations and simulated environments against a reference matcher, observed on for_url() and on the dialled peer (the property has no schedule, clock or fault dimension)",
+ "C14": "deterministic simulation used as harness: complete walk of the finite certificate/flag/route/placement matrix against rustls server peers in the simulated multi-party world, both TLS back ends (no schedule or fault dimension)",
+ "C13": "deterministic simulation with fault injection: seeded search over stall/drip/upload-stall faults per protocol phase x thread interleavings of caller and watchdog threads x read histories; zero-margin virtual-time oracles; thread/socket census",
+ "C17": "deterministic simulation: seeded search over resolver outputs, per-address accept/refuse/black-hole latencies, lookup latency and deadlines x interleavings of the racing threads; virtual-time oracles on the recorded connect attempts",
+ "C16": "deterministic simulation: seeded operation histories over sessions/builders executed by interleaved simulated caller threads, checked against a record-copy reference model; settings observed on the wire and on the virtual clock",
+ "C02": "deterministic simulation with fault injection: one connection cut (FIN/RST), read-timeout gap or framing-byte corruption per run at a targeted offset, followed by caller re-reads; lenient reference decoder as ground truth",
+ "C05": "deterministic simulation with fault injection: hostile and endless byte streams under segmentation, FIN/RST/stall, EINTR and re-reads; kernel deadlock/event-cap detection, real-time hang monitor, transport-consumption bounds, allocation monitor",
+ "C12": "deterministic simulation with fault injection: scripted CONNECT replies (status, damage, body, delay, ending) against plain and TLS proxies; write-ordering invariant on the recorded event order and virtual timestamps; rustls peers for the tunnel",
+ "C19": "deterministic simulation: peer silent forever after a drawn prefix; virtual clock turns 'must not wait for later bytes' into exact equalities",
+}
+
 checks = []
 for pid, (cat, ref, text) in sorted(CLAIMED.items()):
     checks.append({
@@ -41,7 +53,7 @@ for pid, (cat, ref, text) in sorted(CLAIMED.items()):
         "engine": "simcheck",
         "level_claimed": {"category": cat, "text": text, "design_ref": ref},
         "level_note": TRUST,
-        "technique": "deterministic simulation with fault injection (seeded search over plans, schedules and fault sequences; virtual clock; replayable minimised tapes)",
+        "technique": TECH.get(pid, "deterministic simulation with fault injection: seeded search over plans, delivery schedules and fault sequences against scripted peers; virtual clock; replayable minimised tapes"),
     })
 
 NA_PENDING = "check not built yet at this commit (planned, see DESIGN.md section 4)"
